@@ -116,7 +116,8 @@ def events : List Item → Option (Key × List Nat) → List (Key × KEv)
   | .clause k v :: r, some (k', vs) =>
     if k = k' then events r (some (k, vs ++ [v]))
     else (k', .group vs) :: events r (some (k, [v]))
-  | .decl k f :: r, q => flushQ q ++ (k, .decl f) :: events r none
+  -- compile_dispatch runs the declaration first, `'$flush_term_queue'` afterwards
+  | .decl k f :: r, q => (k, .decl f) :: (flushQ q ++ events r none)
   | _ :: r, q => flushQ q ++ events r none
 
 def evsOf (k : Key) (evs : List (Key × KEv)) : List KEv :=
